@@ -1,0 +1,1 @@
+//! Verification hooks: `home_relay` (thin pass-through wrappers; feature `verif-hooks` only).
